@@ -229,6 +229,18 @@ def focused(tier):
         "B": klass([{"script": [1.0, 0.2, 9.8, BIGT]}, None], [[1.0, 0.5], [3.0, 2.0]], route=matrix([[0.0, 1.0], [1.0, 0.0]]))})
     out[-1]["max_events"] = 40
     out[-1]["D"] = 3
+    # round 5: a place freed by a reneging customer must be offered to a customer blocked towards the node; a priority
+    # pre-emption hands a server over while others are still blocked towards the node
+    for caps in ((0, 1), (1, 1)):
+        mk("cycle2 caps=%s reneging at node 2" % (caps,), [node(c=1, cap=caps[0]), node(c=1, cap=caps[1])],
+           {"A": klass([ARR, [1.0, 2.0]], [[1.0, 2.0], [3.0, 1.0]], renege=[None, [0.5, 1.5]], route=matrix([[0.0, 1.0], [1.0, 0.0]]))})
+        out[-1]["max_events"] = E + 4
+        out[-1]["D"] = D - 1
+    for pre in ("resume", "restart"):
+        mk("cycle2 c=(2,1) caps=(0,1) pre-emptive priorities (%s) at node 2" % pre, [node(c=2, cap=0), node(c=1, cap=1, preempt=pre)],
+           {"A": klass([[0.5, 1.0], None], [[1.0, 2.0], [2.0, 1.0]], route=matrix([[0.0, 1.0], [1.0, 0.0]]), prio=1),
+            "B": klass([[0.75, 1.5], None], [[1.0, 2.0], [2.0, 1.0]], route=matrix([[0.0, 1.0], [0.5, 0.0]]), prio=0)})
+        out[-1]["max_events"] = E + 6
     mk("multi-server partial blockage", [node(c=2, cap=0), node(c=1, cap=0), node(c=1)],
        {"A": klass([[0.5, 0.25], None, None], [[1.0, 2.0], [2.0, 1.0], [1.0]], route=matrix([[0.0, 0.5, 0.5], [1.0, 0.0, 0.0], [0.0, 0.0, 0.0]]))})
     return out
